@@ -122,6 +122,19 @@ struct Case {
 }
 
 fn overflow_checks_on() -> bool {
+    static CACHE: std::sync::OnceLock<bool> = std::sync::OnceLock::new();
+    *CACHE.get_or_init(overflow_checks_probe)
+}
+
+fn overflow_checks_probe() -> bool {
+    let prev = std::panic::take_hook();
+    std::panic::set_hook(Box::new(|_| {}));
+    let r = overflow_checks_probe_inner();
+    std::panic::set_hook(prev);
+    r
+}
+
+fn overflow_checks_probe_inner() -> bool {
     catch(|| {
         let x: u8 = std::hint::black_box(255);
         std::hint::black_box(x + std::hint::black_box(1))
@@ -302,7 +315,11 @@ fn gen_dims_u32(rng: &mut Rng) -> (Vec<u32>, &'static str, Option<u64>) {
         }
         7 => {
             let m = u32::MAX;
-            let table: [&[u32]; 6] = [
+            let table: [&[u32]; 10] = [
+                &[1 << 31, 1 << 31, 0],
+                &[0, 1 << 31, 1 << 30],
+                &[1 << 30, 1 << 30, 2, 0],
+                &[1 << 31, 0, 1 << 31, 1],
                 &[0, m, m, m],
                 &[m, m, m, 0],
                 &[1 << 16, 1 << 16, 0, 1 << 16, 1 << 16],
@@ -1442,6 +1459,7 @@ fn child_main(seed: u64, thorough: bool) {
     }
     let mut f = std::fs::File::create(&res_path).unwrap();
     let total = total_cases(thorough);
+    let total = if std::env::var("C05_ONE").is_ok() { from + 1 } else { total };
     for idx in from..total {
         let case = gen_case(seed, thorough, idx);
         // announce the case before running it: a crash is attributed to the announced index
